@@ -98,9 +98,22 @@ def rule_names(ctx: Ctx) -> None:
     # suffix from the step name
     cb = machine_methods(tree)["cost_volume_confidence_run"]
     step = cb.args.args[2].arg
-    sts = [s for s in stmts_of(cb) if isinstance(s, ast.Assign) and canon(s.targets[0]) == f"cfg['pipeline'][{step}]['indicator']"]
-    ifs = [s for s in stmts_of(cb) if isinstance(s, ast.If) and "split" in src(s.test)]
-    ok = bool(sts) and canon(sts[0].value) == "''" and bool(ifs) and equivalent(boolform(ifs[0].test), boolform(_e(f"len({step}.split('.')) == 2"))) is None and len(ifs[0].body) == 1 and canon(ifs[0].body[0].value) == canon(_e(f"'.' + {step}.split('.')[1]"))
+    entry = f"cfg['pipeline'][{step}]['indicator']"
+    body = stmts_of(cb)
+    ifs = [s for s in body if isinstance(s, ast.If) and "split" in src(s.test)]
+    ok = False
+    if ifs and len(ifs[0].body) == 1 and isinstance(ifs[0].body[0], ast.Assign) and not ifs[0].orelse:
+        tgt = canon(ifs[0].body[0].targets[0])  # the configuration entry itself, or a local stored into it afterwards
+        init = [s for s in body if isinstance(s, ast.Assign) and canon(s.targets[0]) == tgt and s.lineno < ifs[0].lineno]
+        ok = (
+            bool(init)
+            and canon(init[-1].value) == "''"
+            and equivalent(boolform(ifs[0].test), boolform(_e(f"len({step}.split('.')) == 2"))) is None
+            and canon(ifs[0].body[0].value) == canon(_e(f"'.' + {step}.split('.')[1]"))
+        )
+        if tgt != entry:
+            fin = [s for s in body if isinstance(s, ast.Assign) and canon(s.targets[0]) == entry and s.lineno > ifs[0].lineno]
+            ok = ok and len(fin) == 1 and canon(fin[0].value) == tgt
     ctx.ob("C12.NAMES", SM, ifs[0] if ifs else cb, "cost_volume_confidence_run: indicator suffix '' or '.' + second part of the step name", ok, expected=f"'' ; if len({step}.split('.')) == 2: '.' + {step}.split('.')[1]", detail="several confidence steps are told apart by the suffix of their step name")
     k = rule_mirror(ctx, "C12.MIRROR", only=["cost_volume_confidence_run"])
     ctx.floor("C12.MIRROR", k, 1)
